@@ -412,20 +412,25 @@ def make_source(prof, node_id=SRC_ID, tgt_types=(1,), ivs=(), extra=None):
 
 
 def make_receiver(prof, node_id=DST_ID, wrong_key=False, accept=None, src_id=SRC_ID, extra=None):
-    ''' A receiver for bundles of ``make_source(prof)``. ``wrong_key``: same key id, different key material
-    (symmetric) / an unrelated CA (certificates). ``accept`` = config accept_after_verify (default: True for
-    confidentiality profiles, False otherwise). '''
+    ''' A receiver for bundles of ``make_source(prof)``. ``wrong_key``: True = every key wrong (same key id,
+    different key material for symmetric keys / an unrelated CA for certificates); or a list of profile NAMES whose
+    key alone is wrong.  ``accept`` = config accept_after_verify (default: True when a confidentiality profile is
+    involved, False otherwise).  ``extra`` = further profile(s) whose keys the receiver holds as well. '''
     if accept is None:
         accept = any(item['sec'] == 'bcb' for item in [prof] + _as_list(extra))
     node = SecNode(node_id, accept_after_verify=accept)
     for item in [prof] + _as_list(extra):
+        if wrong_key is True or wrong_key is False or wrong_key is None:
+            wrong = bool(wrong_key)
+        else:
+            wrong = any(item is PROFILES[name] for name in wrong_key)
         if 'pki' in item:
-            pki = load_pki(item['pki'], src_id, 'other' if wrong_key else 'own')
+            pki = load_pki(item['pki'], src_id, 'other' if wrong else 'own')
             node.add_pki(pki, signer=False)
             if not item.get('include_chain', True):
                 node.add_cert_to_store(load_pki(item['pki'], src_id, 'own'))
         else:
-            node.add_sym_key(profile_key(item, wrong=wrong_key))
+            node.add_sym_key(profile_key(item, wrong=wrong))
     return node
 
 
@@ -1198,10 +1203,10 @@ _WORKER = {}
 
 
 def receiver_from_spec(spec):
-    ''' spec = dict(profile=name, extra=name | [names] | None, accept=None|bool, wrong_key=bool) '''
+    ''' spec = dict(profile=name, extra=name | [names] | None, accept=None|bool, wrong_key=bool | [profile names]) '''
     extra = spec.get('extra')
     names = [] if not extra else (list(extra) if isinstance(extra, (list, tuple)) else [extra])
-    return make_receiver(PROFILES[spec['profile']], wrong_key=bool(spec.get('wrong_key')), accept=spec.get('accept'),
+    return make_receiver(PROFILES[spec['profile']], wrong_key=spec.get('wrong_key') or False, accept=spec.get('accept'),
                          extra=[PROFILES[name] for name in names])
 
 
